@@ -164,23 +164,30 @@ const MAXES: [f64; 11] = [
     100.0,
 ];
 
-fn pairs(tier: Tier) -> Vec<(f64, f64)> {
+/// (original ratio, max relative ratio, chunk size)
+fn pairs(tier: Tier) -> Vec<(f64, f64, usize)> {
     let mut v = Vec::new();
     for (i, o) in ORIGS.iter().enumerate() {
         for (j, m) in MAXES.iter().enumerate() {
             let _ = (i, j, tier);
-            v.push((*o, *m));
+            v.push((*o, *m, 4));
         }
+    }
+    // chunk / ratio is a whole number: cached sizes computed by two differently rounded formulas
+    // (constructor / reset vs. the setters) may differ by one frame exactly here, so that a call
+    // which merely recomputes a size is not a no-op
+    for (o, c) in [(0.91875, 147usize), (0.91875, 441), (0.96, 480), (0.7, 7), (1.2, 12), (1.1, 11), (0.35, 7), (0.45, 9), (1.7, 17), (0.48, 480)] {
+        v.push((o, 2.0, c));
     }
     v
 }
 
-fn cfgs_for(orig: f64, m: f64) -> Vec<Cfg> {
+fn cfgs_for(orig: f64, m: f64, chunk: usize) -> Vec<Cfg> {
     vec![
-        Cfg::sinc(Kind::SI, orig, m, 4, 8, 2, Interp::Cubic, Kernel::Probe),
-        Cfg::sinc(Kind::SO, orig, m, 4, 8, 2, Interp::Linear, Kernel::Dispatch),
-        Cfg::fast(Kind::FI, orig, m, 4, Degree::Cubic),
-        Cfg::fast(Kind::FO, orig, m, 4, Degree::Septic),
+        Cfg::sinc(Kind::SI, orig, m, chunk, 8, 2, Interp::Cubic, Kernel::Probe),
+        Cfg::sinc(Kind::SO, orig, m, chunk, 8, 2, Interp::Linear, Kernel::Dispatch),
+        Cfg::fast(Kind::FI, orig, m, chunk, Degree::Cubic),
+        Cfg::fast(Kind::FO, orig, m, chunk, Degree::Septic),
     ]
 }
 
@@ -470,7 +477,7 @@ impl Check for C12 {
         if idx == ps.len() {
             check_sync(&mut acc, journal)?;
         } else {
-            let (orig, m) = ps[idx];
+            let (orig, m, chunk) = ps[idx];
             // the argument lattice
             let mut abs: Vec<f64> = Vec::new();
             for b in [orig * m, orig / m, orig * (1.0 / m)] {
@@ -484,7 +491,7 @@ impl Check for C12 {
             }
             rel.extend([1.0, (1.0 + m) / 2.0, 2.0 / (1.0 + m)]);
             rel.extend(specials());
-            for cfg in cfgs_for(orig, m) {
+            for cfg in cfgs_for(orig, m, chunk) {
                 for prefix in prefixes(m) {
                     acc.states += 1;
                     for &v in &abs {
